@@ -11,4 +11,6 @@ S=$(date +%s)
 RC=$?
 E2=$(date +%s)
 git -C /repo checkout -- .
+# the run above rewrote evidence/<PID>.json from the mutated tree: put the committed (clean-tree) evidence back
+git -C /verif checkout -- evidence/$PID.json 2>/dev/null
 echo "MUTATION $PID $(basename $(dirname $D))/$(basename $D) tier=$TIER exit=$RC wall=$((E2-S))s  $(grep -c '^VIOLATION' /tmp/mut_$PID_$(basename $D).log) violation lines; first: $(grep -m1 'counterexample' /tmp/mut_$PID_$(basename $D).log | cut -c1-250)"
